@@ -1142,6 +1142,44 @@ fn run<E: Elem + Clone + Default + Ord>(h: &History, mode: Mode, ctx: &mut Ctx) 
     Ok(())
 }
 
+
+/// Bound a history decoded from raw fuzzer bytes (dimensions 0..8, at most 48 operations).
+pub fn sanitize(h: &mut History) -> bool {
+    fn dim(d: &mut Dim) {
+        if let Dim::S(k) = d {
+            *k %= 9;
+        }
+    }
+    fn ctor(c: &mut Ctor) {
+        match c {
+            Ctor::New(a, b) | Ctor::Init(a, b) => {
+                dim(a);
+                dim(b);
+            }
+            Ctor::FromVec { c, r, delta, .. } => {
+                dim(c);
+                dim(r);
+                *delta = (*delta).clamp(-8, 8);
+            }
+            Ctor::FromBox { c, r, delta } => {
+                dim(c);
+                dim(r);
+                *delta = (*delta).clamp(-8, 8);
+            }
+            _ => {}
+        }
+    }
+    ctor(&mut h.ctor);
+    for op in h.ops.iter_mut() {
+        match op {
+            Op::Rebuild(c) => ctor(c),
+            Op::RemoveRow { script, .. } | Op::RemoveCol { script, .. } | Op::PopRow { script } | Op::PopCol { script } => script.truncate(12),
+            _ => {}
+        }
+    }
+    true
+}
+
 pub fn execute(h: &History, mode: Mode, ctx: &mut Ctx) -> Verdict {
     match h.elem {
         ElemKind::U32 => run::<u32>(h, mode, ctx),
